@@ -14,14 +14,14 @@ Definition marker_ok (o : obs) : Prop :=
 
 Definition resA (r : res) : Prop :=
   match r with
-  | Done s t | Raised _ s t => wf (st_subs s) /\ Forall marker_ok t
+  | Done s t | Raised _ s t => wfs (st_subs s) /\ Forall marker_ok t
   | OutOfFuel => True
   end.
 
 Definition stepA (step : state -> op -> res) : Prop :=
-  forall s o, wf (st_subs s) -> resA (step s o).
+  forall s o, wfs (st_subs s) -> resA (step s o).
 
-Lemma bindA r k : resA r -> (forall s, wf (st_subs s) -> resA (k s)) -> resA (bind_res r k).
+Lemma bindA r k : resA r -> (forall s, wfs (st_subs s) -> resA (k s)) -> resA (bind_res r k).
 Proof.
   destruct r as [s t|e s t|]; cbn; auto.
   intros [Hw Ht] Hk. specialize (Hk s Hw).
@@ -35,40 +35,40 @@ Proof.
     (split; [exact Hw|apply Forall_app; split; assumption]).
 Qed.
 
-Lemma run_listA step : stepA step -> forall ops s, wf (st_subs s) -> resA (run_list step s ops).
+Lemma run_listA step : stepA step -> forall ops s, wfs (st_subs s) -> resA (run_list step s ops).
 Proof.
   intros Hs. induction ops as [|o r IH]; intros s Hw; cbn.
   - split; [exact Hw|constructor].
   - apply bindA; [apply Hs; exact Hw|]. intros s1 Hw1. apply IH. exact Hw1.
 Qed.
 
-Lemma notifyA step i ev s l : stepA step -> wf (st_subs s) -> resA (notify step i ev s l).
+Lemma notifyA step i ev s l : stepA step -> wfs (st_subs s) -> resA (notify step i ev s l).
 Proof.
   intros Hs Hw. unfold notify. destruct (pop_script l (st_scripts s)) as [p scr'].
   apply prependA; [repeat constructor|]. apply run_listA; [exact Hs|exact Hw].
 Qed.
 
 Lemma deliver_allA step i ev : stepA step ->
-  forall ls s, wf (st_subs s) -> resA (deliver_all step i ev s ls).
+  forall ls s, wfs (st_subs s) -> resA (deliver_all step i ev s ls).
 Proof.
   intros Hs. induction ls as [|l r IH]; intros s Hw; cbn.
   - split; [exact Hw|constructor].
   - apply bindA; [apply notifyA; assumption|]. intros s1 Hw1. apply IH. exact Hw1.
 Qed.
 
-Lemma fire_evA step s ev : stepA step -> wf (st_subs s) -> resA (fire_ev step s ev).
+Lemma fire_evA step s p ev : stepA step -> wfs (st_subs s) -> resA (fire_ev step s p ev).
 Proof.
   intros Hs Hw. unfold fire_ev.
-  pose proof (deliver_allA step (st_next s) ev Hs (subscribers (st_subs s) (ev_type ev))
+  pose proof (deliver_allA step (st_next s) ev Hs (subscribers (subs_of s p) (ev_type ev))
                 (mkState (st_subs s) (st_scripts s) (S (st_next s))) Hw) as H.
   destruct (deliver_all step (st_next s) ev _ _) as [s' t|e s' t|]; cbn in *; auto;
     destruct H as [Hw' Ht]; split; try exact Hw'.
-  - constructor; [cbn; apply wf_subscribers_NoDup; exact Hw|].
+  - constructor; [cbn; apply wf_subscribers_NoDup, wfs_prod; exact Hw|].
     apply Forall_app; split; [exact Ht|repeat constructor].
-  - constructor; [cbn; apply wf_subscribers_NoDup; exact Hw|exact Ht].
+  - constructor; [cbn; apply wf_subscribers_NoDup, wfs_prod; exact Hw|exact Ht].
 Qed.
 
-Lemma fire_mkA step s m : stepA step -> wf (st_subs s) -> resA (fire_mk step s m).
+Lemma fire_mkA step s p m : stepA step -> wfs (st_subs s) -> resA (fire_mk step s p m).
 Proof.
   intros Hs Hw. destruct m as [ev|k]; cbn; [apply fire_evA; assumption|].
   split; [exact Hw|constructor].
@@ -77,17 +77,17 @@ Qed.
 Lemma pure_stepA : stepA pure_step.
 Proof.
   intros s o Hw.
-  destruct o as [a l|a l|a l| |a c chk|ts a c chk|e|e|];
+  destruct o as [p a l|p a l|p a l|p|p a c chk|p ts a c chk|p e|p e|];
     try (cbn; split; [exact Hw|repeat constructor]; fail);
     destruct a as [et| |], l as [li| |]; cbn;
-    (split; [|repeat constructor]);
-    auto using sub_add_wf, sub_remove_wf, sub_del_wf, sub_remove_everywhere_wf, wf_nil.
+    (split; [|repeat constructor]); try exact Hw;
+    apply wfs_upd; auto using sub_add_wf, sub_remove_wf, sub_del_wf, sub_remove_everywhere_wf, wf_nil.
 Qed.
 
 Lemma execA E fuel : stepA (exec E fuel).
 Proof.
   induction fuel as [|f IH]; intros s o Hw; [exact I|].
-  destruct o as [a l|a l|a l| |a c chk|ts a c chk|e|e|]; cbn [exec];
+  destruct o as [p a l|p a l|p a l|p|p a c chk|p ts a c chk|p e|p e|]; cbn [exec];
     try (apply pure_stepA; exact Hw).
   - apply fire_mkA; assumption.
   - apply fire_mkA; assumption.
@@ -98,8 +98,8 @@ Proof.
 Qed.
 
 Lemma run_topA E fuel : forall ops s s' t,
-  wf (st_subs s) -> run_top E fuel s ops = Some (s', t) ->
-  wf (st_subs s') /\ Forall marker_ok t.
+  wfs (st_subs s) -> run_top E fuel s ops = Some (s', t) ->
+  wfs (st_subs s') /\ Forall marker_ok t.
 Proof.
   induction ops as [|o r IH]; intros s s' t Hw; cbn.
   - intros H. inversion H. subst. split; [exact Hw|constructor].
@@ -116,8 +116,8 @@ Qed.
 (* every state reachable from the empty producer satisfies the invariant *)
 Theorem invariant_reachable E fuel scr ops s' t :
   run_top E fuel (init scr) ops = Some (s', t) ->
-  wf (st_subs s') /\ Forall marker_ok t.
-Proof. apply run_topA. apply wf_nil. Qed.
+  wfs (st_subs s') /\ Forall marker_ok t.
+Proof. apply run_topA. apply wfs_nil. Qed.
 
 (* ====================================================================== *)
 (* B. Trace segments: what one fire invocation delivers                    *)
@@ -416,10 +416,10 @@ Qed.
 (* The heart of the property: the deliveries of THIS invocation are the
    subscribers of the event's type in the state s in which fire was invoked -
    whatever the notified listeners did to the producer meanwhile. *)
-Lemma fire_evB step s ev : stepB step ->
+Lemma fire_evB step s p ev : stepB step ->
   let i0 := st_next s in
-  let ls := subscribers (st_subs s) (ev_type ev) in
-  match fire_ev step s ev with
+  let ls := subscribers (subs_of s p) (ev_type ev) in
+  match fire_ev step s p ev with
   | Done s' t =>
       seg i0 t (st_next s') /\ fires i0 t = [(ev, ls)] /\ dels i0 t = to ev ls /\ dones i0 t = [tt]
   | Raised _ s' t =>
@@ -440,11 +440,11 @@ Qed.
 Lemma seg_raised_nil n : seg n [] n.
 Proof. apply seg_nil. Qed.
 
-Lemma fire_mkB step s m : stepB step -> resB (st_next s) (fire_mk step s m).
+Lemma fire_mkB step s p m : stepB step -> resB (st_next s) (fire_mk step s p m).
 Proof.
   intros Hs. destruct m as [ev|k]; cbn; [|apply seg_nil].
-  pose proof (fire_evB step s ev Hs) as H. cbn zeta in H.
-  destruct (fire_ev step s ev) as [s' t|e s' t|]; cbn; auto; apply H.
+  pose proof (fire_evB step s p ev Hs) as H. cbn zeta in H.
+  destruct (fire_ev step s p ev) as [s' t|e s' t|]; cbn; auto; apply H.
 Qed.
 
 Lemma quiet_has b i : empty_at i [ObsHas b].
@@ -453,7 +453,7 @@ Proof. repeat split. Qed.
 Lemma pure_stepB : stepB pure_step.
 Proof.
   intros s o.
-  destruct o as [a l|a l|a l| |a c chk|ts a c chk|e|e|];
+  destruct o as [p a l|p a l|p a l|p|p a c chk|p ts a c chk|p e|p e|];
     try (cbn; apply seg_nil);
     try (destruct a as [et| |], l as [li| |]; cbn; apply seg_nil).
 Qed.
@@ -461,14 +461,14 @@ Qed.
 Lemma execB E fuel : stepB (exec E fuel).
 Proof.
   induction fuel as [|f IH]; intros s o; [exact I|].
-  destruct o as [a l|a l|a l| |a c chk|ts a c chk|e|e|]; cbn [exec];
+  destruct o as [p a l|p a l|p a l|p|p a c chk|p ts a c chk|p e|p e|]; cbn [exec];
     try apply pure_stepB.
   - apply fire_mkB; assumption.
   - apply fire_mkB; assumption.
   - destruct (make_spec E e) as [m|]; [apply fire_mkB; assumption|apply seg_nil].
   - destruct (make_spec E e) as [[ev|k]|]; try apply seg_nil.
     destruct (ev_time ev); [|apply seg_nil].
-    apply (fire_mkB (exec E f) s (MkOk ev) IH).
+    apply (fire_mkB (exec E f) s p (MkOk ev) IH).
 Qed.
 
 Lemma quiet_ret i : empty_at i [ObsRet].
@@ -558,23 +558,23 @@ Qed.
 (* ---------- one invocation, seen from the state it is invoked in ---------- *)
 (* the event a fire operation constructs and passes on (None: not a fire
    operation, or the event / the call is refused) *)
-Definition fired_event (E : menv) (o : op) : option event :=
+Definition fired_event (E : menv) (o : op) : option (nat * event) :=
   match o with
-  | OFire a c chk => match make_event E a c chk with MkOk e => Some e | MkErr _ => None end
-  | OFireTimed ts a c chk => match make_timed E ts a c chk with MkOk e => Some e | MkErr _ => None end
-  | OFireEvent e => match make_spec E e with Some (MkOk ev) => Some ev | _ => None end
-  | OFireTimedEvent e =>
+  | OFire p a c chk => match make_event E a c chk with MkOk e => Some (p, e) | MkErr _ => None end
+  | OFireTimed p ts a c chk => match make_timed E ts a c chk with MkOk e => Some (p, e) | MkErr _ => None end
+  | OFireEvent p e => match make_spec E e with Some (MkOk ev) => Some (p, ev) | _ => None end
+  | OFireTimedEvent p e =>
       match make_spec E e with
-      | Some (MkOk ev) => match ev_time ev with Some _ => Some ev | None => None end
+      | Some (MkOk ev) => match ev_time ev with Some _ => Some (p, ev) | None => None end
       | _ => None
       end
   | _ => None
   end.
 
-Lemma exec_fire_reduces E f s o ev :
-  fired_event E o = Some ev -> exec E (S f) s o = fire_ev (exec E f) s ev.
+Lemma exec_fire_reduces E f s o p ev :
+  fired_event E o = Some (p, ev) -> exec E (S f) s o = fire_ev (exec E f) s p ev.
 Proof.
-  destruct o as [a l|a l|a l| |a c chk|ts a c chk|e|e|]; cbn [fired_event exec]; try discriminate.
+  destruct o as [q a l|q a l|q a l|q|q a c chk|q ts a c chk|q e|q e|]; cbn [fired_event exec]; try discriminate.
   - destruct (make_event E a c chk); [|discriminate]. intros H. inversion H. reflexivity.
   - destruct (make_timed E ts a c chk); [|discriminate]. intros H. inversion H. reflexivity.
   - destruct (make_spec E e) as [[ev'|k]|]; try discriminate. intros H. inversion H. reflexivity.
@@ -582,9 +582,9 @@ Proof.
     destruct (ev_time ev'); [|discriminate]. intros H. inversion H. reflexivity.
 Qed.
 
-Theorem fire_delivers_snapshot E fuel s o ev :
-  fired_event E o = Some ev ->
-  let subs := subscribers (st_subs s) (ev_type ev) in
+Theorem fire_delivers_snapshot E fuel s o p ev :
+  fired_event E o = Some (p, ev) ->
+  let subs := subscribers (subs_of s p) (ev_type ev) in
   match exec E fuel s o with
   | Done s' t => dels (st_next s) t = to ev subs
   | Raised _ s' t => exists k, dels (st_next s) t = to ev (firstn k subs)
@@ -592,9 +592,9 @@ Theorem fire_delivers_snapshot E fuel s o ev :
   end.
 Proof.
   intros Hf subs. destruct fuel as [|f]; [exact I|].
-  rewrite (exec_fire_reduces E f s o ev Hf).
-  pose proof (fire_evB (exec E f) s ev (execB E f)) as H. cbn zeta in H.
-  destruct (fire_ev (exec E f) s ev) as [s' t|k s' t|]; [| |exact I].
+  rewrite (exec_fire_reduces E f s o p ev Hf).
+  pose proof (fire_evB (exec E f) s p ev (execB E f)) as H. cbn zeta in H.
+  destruct (fire_ev (exec E f) s p ev) as [s' t|k s' t|]; [| |exact I].
   - apply H.
   - apply H.
 Qed.
@@ -608,7 +608,7 @@ Theorem no_event_no_delivery E fuel s o :
   end.
 Proof.
   intros Hf. destruct fuel as [|f]; [exact I|].
-  destruct o as [a l|a l|a l| |a c chk|ts a c chk|e|e|]; cbn [exec fired_event] in *.
+  destruct o as [p a l|p a l|p a l|p|p a c chk|p ts a c chk|p e|p e|]; cbn [exec fired_event] in *.
   - destruct a as [et| |], l as [li| |]; cbn; intros i l0 ev0 [].
   - destruct a as [et| |], l as [li| |]; cbn; intros i l0 ev0 [].
   - destruct a as [et| |], l as [li| |]; cbn; intros i l0 ev0 [].
@@ -622,12 +622,12 @@ Proof.
 Qed.
 
 (* fire / fire_timed are fire_event / fire_timed_event of the constructed event *)
-Lemma fire_is_fire_event E fuel s a c chk :
-  exec E fuel s (OFire a c chk) = exec E fuel s (OFireEvent (EvPlain a c chk)).
+Lemma fire_is_fire_event E fuel s p a c chk :
+  exec E fuel s (OFire p a c chk) = exec E fuel s (OFireEvent p (EvPlain a c chk)).
 Proof. destruct fuel; reflexivity. Qed.
 
-Lemma fire_timed_is_fire_timed_event E fuel s ts a c chk :
-  exec E fuel s (OFireTimed ts a c chk) = exec E fuel s (OFireTimedEvent (EvTimed ts a c chk)).
+Lemma fire_timed_is_fire_timed_event E fuel s p ts a c chk :
+  exec E fuel s (OFireTimed p ts a c chk) = exec E fuel s (OFireTimedEvent p (EvTimed ts a c chk)).
 Proof.
   destruct fuel as [|f]; [reflexivity|]. cbn [exec make_spec].
   destruct (make_timed E ts a c chk) as [ev|k] eqn:M; [|reflexivity].
@@ -635,8 +635,8 @@ Proof.
 Qed.
 
 (* what a fire_timed invocation delivers carries the timestamp it was fired with *)
-Theorem fire_timed_delivers_timestamp E fuel s ts a c chk :
-  match exec E fuel s (OFireTimed ts a c chk) with
+Theorem fire_timed_delivers_timestamp E fuel s p ts a c chk :
+  match exec E fuel s (OFireTimed p ts a c chk) with
   | Done s' t | Raised _ s' t =>
       forall l ev, In (ObsDeliver (st_next s) l ev) t ->
         ev_time ev = Some ts /\ ev_content ev = c /\ a = Good (ev_type ev)
@@ -644,17 +644,17 @@ Theorem fire_timed_delivers_timestamp E fuel s ts a c chk :
   end.
 Proof.
   destruct (make_timed E ts a c chk) as [ev0|k] eqn:M.
-  - assert (Hf : fired_event E (OFireTimed ts a c chk) = Some ev0) by (cbn; rewrite M; reflexivity).
-    pose proof (fire_delivers_snapshot E fuel s _ ev0 Hf) as H. cbn zeta in H.
+  - assert (Hf : fired_event E (OFireTimed p ts a c chk) = Some (p, ev0)) by (cbn; rewrite M; reflexivity).
+    pose proof (fire_delivers_snapshot E fuel s _ p ev0 Hf) as H. cbn zeta in H.
     apply timed_event_keeps_timestamp in M.
-    destruct (exec E fuel s (OFireTimed ts a c chk)) as [s' t|e s' t|]; [| |exact I].
+    destruct (exec E fuel s (OFireTimed p ts a c chk)) as [s' t|e s' t|]; [| |exact I].
     + intros l ev Hin. apply In_dels in Hin. rewrite H in Hin. unfold to in Hin.
       apply in_map_iff in Hin. destruct Hin as [l' [Heq _]]. inversion Heq. subst. exact M.
     + destruct H as [j H]. intros l ev Hin. apply In_dels in Hin. rewrite H in Hin. unfold to in Hin.
       apply in_map_iff in Hin. destruct Hin as [l' [Heq _]]. inversion Heq. subst. exact M.
-  - assert (Hf : fired_event E (OFireTimed ts a c chk) = None) by (cbn; rewrite M; reflexivity).
+  - assert (Hf : fired_event E (OFireTimed p ts a c chk) = None) by (cbn; rewrite M; reflexivity).
     pose proof (no_event_no_delivery E fuel s _ Hf) as H.
-    destruct (exec E fuel s (OFireTimed ts a c chk)) as [s' t|e s' t|]; [| |exact I];
+    destruct (exec E fuel s (OFireTimed p ts a c chk)) as [s' t|e s' t|]; [| |exact I];
       intros l ev Hin; exfalso; eapply H; exact Hin.
 Qed.
 
@@ -720,23 +720,23 @@ Proof.
   apply bindC; [apply (notifyC f); assumption|]. intros s1 H1. apply IH. lia.
 Qed.
 
-Lemma fire_evC f step s ev : stepC f step -> cnt s <= f -> resC (cnt s) (fire_ev step s ev).
+Lemma fire_evC f step s p ev : stepC f step -> cnt s <= f -> resC (cnt s) (fire_ev step s p ev).
 Proof.
   intros Hs Hc. unfold fire_ev.
-  pose proof (deliver_allC f step (st_next s) ev Hs (subscribers (st_subs s) (ev_type ev))
+  pose proof (deliver_allC f step (st_next s) ev Hs (subscribers (subs_of s p) (ev_type ev))
                 (mkState (st_subs s) (st_scripts s) (S (st_next s)))) as H.
   unfold cnt in *. cbn [st_scripts] in H. specialize (H Hc).
   destruct (deliver_all step (st_next s) ev _ _) as [s' t|e s' t|]; cbn in *; auto.
 Qed.
 
-Lemma fire_mkC f step s m : stepC f step -> cnt s <= f -> resC (cnt s) (fire_mk step s m).
+Lemma fire_mkC f step s p m : stepC f step -> cnt s <= f -> resC (cnt s) (fire_mk step s p m).
 Proof.
   intros Hs Hc. destruct m as [ev|k]; cbn; [apply (fire_evC f); assumption|lia].
 Qed.
 
 Lemma pure_stepC s o : resC (cnt s) (pure_step s o).
 Proof.
-  destruct o as [a l|a l|a l| |a c chk|ts a c chk|e|e|]; try (cbn; apply Nat.le_refl);
+  destruct o as [p a l|p a l|p a l|p|p a c chk|p ts a c chk|p e|p e|]; try (cbn; apply Nat.le_refl);
     destruct a as [et| |], l as [li| |]; cbn; apply Nat.le_refl.
 Qed.
 
@@ -744,7 +744,7 @@ Lemma execC E : forall fuel, stepC fuel (exec E fuel).
 Proof.
   induction fuel as [|f IH]; intros s o Hc; [lia|].
   assert (Hc' : cnt s <= f) by lia.
-  destruct o as [a l|a l|a l| |a c chk|ts a c chk|e|e|]; cbn [exec];
+  destruct o as [p a l|p a l|p a l|p|p a c chk|p ts a c chk|p e|p e|]; cbn [exec];
     try apply pure_stepC.
   - apply (fire_mkC f); assumption.
   - apply (fire_mkC f); assumption.
@@ -822,45 +822,45 @@ Proof.
   apply bind_mono; [exact H|]. intros s1. apply IH.
 Qed.
 
-Lemma fire_ev_mono st st' s ev : le_step st st' ->
-  fire_ev st s ev <> OutOfFuel -> fire_ev st' s ev = fire_ev st s ev.
+Lemma fire_ev_mono st st' s p ev : le_step st st' ->
+  fire_ev st s p ev <> OutOfFuel -> fire_ev st' s p ev = fire_ev st s p ev.
 Proof.
   intros Hl. unfold fire_ev. intros H.
   rewrite (deliver_all_mono st st' _ ev Hl); [reflexivity|].
   intros C. rewrite C in H. apply H. reflexivity.
 Qed.
 
-Lemma fire_mk_mono st st' s m : le_step st st' ->
-  fire_mk st s m <> OutOfFuel -> fire_mk st' s m = fire_mk st s m.
+Lemma fire_mk_mono st st' s p m : le_step st st' ->
+  fire_mk st s p m <> OutOfFuel -> fire_mk st' s p m = fire_mk st s p m.
 Proof. intros Hl. destruct m; cbn; [apply fire_ev_mono; exact Hl|reflexivity]. Qed.
 
 Lemma exec_mono_S E : forall f, le_step (exec E f) (exec E (S f)).
 Proof.
   induction f as [|f IH]; intros s o H; [exfalso; apply H; reflexivity|].
-  destruct o as [a l|a l|a l| |a c chk|ts a c chk|e|e|]; try reflexivity.
-  - apply (fire_mk_mono _ _ s _ IH). exact H.
-  - apply (fire_mk_mono _ _ s _ IH). exact H.
-  - change (exec E (S (S f)) s (OFireEvent e)) with
-      (match make_spec E e with None => Raised ENotEvent s [] | Some m => fire_mk (exec E (S f)) s m end).
-    change (exec E (S f) s (OFireEvent e)) with
-      (match make_spec E e with None => Raised ENotEvent s [] | Some m => fire_mk (exec E f) s m end) in H |- *.
-    destruct (make_spec E e) as [m|]; [|reflexivity]. apply (fire_mk_mono _ _ s _ IH). exact H.
-  - change (exec E (S (S f)) s (OFireTimedEvent e)) with
+  destruct o as [p a l|p a l|p a l|p|p a c chk|p ts a c chk|p e|p e|]; try reflexivity.
+  - apply (fire_mk_mono _ _ s p _ IH). exact H.
+  - apply (fire_mk_mono _ _ s p _ IH). exact H.
+  - change (exec E (S (S f)) s (OFireEvent p e)) with
+      (match make_spec E e with None => Raised ENotEvent s [] | Some m => fire_mk (exec E (S f)) s p m end).
+    change (exec E (S f) s (OFireEvent p e)) with
+      (match make_spec E e with None => Raised ENotEvent s [] | Some m => fire_mk (exec E f) s p m end) in H |- *.
+    destruct (make_spec E e) as [m|]; [|reflexivity]. apply (fire_mk_mono _ _ s p _ IH). exact H.
+  - change (exec E (S (S f)) s (OFireTimedEvent p e)) with
       (match make_spec E e with
        | None => Raised ENotTimedEvent s []
        | Some (MkErr k) => Raised k s []
        | Some (MkOk ev) => match ev_time ev with
                            | None => Raised ENotTimedEvent s []
-                           | Some _ => fire_ev (exec E (S f)) s ev end end).
-    change (exec E (S f) s (OFireTimedEvent e)) with
+                           | Some _ => fire_ev (exec E (S f)) s p ev end end).
+    change (exec E (S f) s (OFireTimedEvent p e)) with
       (match make_spec E e with
        | None => Raised ENotTimedEvent s []
        | Some (MkErr k) => Raised k s []
        | Some (MkOk ev) => match ev_time ev with
                            | None => Raised ENotTimedEvent s []
-                           | Some _ => fire_ev (exec E f) s ev end end) in H |- *.
+                           | Some _ => fire_ev (exec E f) s p ev end end) in H |- *.
     destruct (make_spec E e) as [[ev|k]|]; try reflexivity.
-    destruct (ev_time ev); [|reflexivity]. apply (fire_ev_mono _ _ s _ IH). exact H.
+    destruct (ev_time ev); [|reflexivity]. apply (fire_ev_mono _ _ s p _ IH). exact H.
 Qed.
 
 Theorem exec_fuel_irrelevant E f f' s o :
